@@ -129,6 +129,57 @@ def run_shape(tdir, work, inv, k, rep=0):
     return {"status": status, "stderr": stderr, "created": created, "modified": modified, "targetok": targetok, "argv": " ".join(argv[1:])}
 
 
+X_MORE = ["var x;\n", "var n;\narray a[n];\nproc main() is a[0] := 1\n", "var x;\nproc main() is x(1)\n", "proc main() is 0(q[1])\n",
+          "val put = 1;\nproc main() is { put('a', 0); 0(3) }\n", "proc main() is skip 42\n", "proc main() is f(1)\nfunc f(val a, val b) is return a\n"]
+XACTS = ["--tokens", "--tree", "--insts-asm", "--tree-opt", "--insts", "--insts-lowered", "--insts-optimised", "-S"]
+AACTS = ["--tokens", "--instrs"]
+
+
+def actions_family(chk, tdir, d):
+    """ToolRun!ActionsConform: every display option of xcmp / hexasm on sources of every class (one directory per invocation)"""
+    srcs = [("xcmp", x_src(7)), ("xcmp", x_src(0, "read")), ("xcmp", x_src(0, "class"))] + [("xcmp", s) for v in X_ERR.values() for s in v] + [("xcmp", s) for s in X_MORE]
+    srcs += [("hexasm", s) for v in ASM_SRC.values() for s in v]
+    recs = []
+    def one(tool, src, act, k):
+        wd = os.path.join(d, "act%d" % k); os.makedirs(wd)
+        name = "prog.x" if tool == "xcmp" else "prog.S"
+        open(os.path.join(wd, name), "w").write(src)
+        before = snapshot(wd)
+        try:
+            p = subprocess.run([os.path.join(tdir, tool)] + ([act] if act else []) + [name], cwd=wd, stdin=subprocess.DEVNULL, stdout=subprocess.PIPE, stderr=subprocess.PIPE, timeout=60)
+            status = p.returncode if p.returncode >= 0 else 1000 - p.returncode
+            so, se = len(p.stdout) > 0, len(p.stderr) > 0
+        except subprocess.TimeoutExpired:
+            status, so, se = 2000, False, False
+        after = snapshot(wd)
+        shutil.rmtree(wd, ignore_errors=True)
+        return {"status": status, "stderr": se, "stdout": so, "created": sorted(f for f in after if f not in before),
+                "modified": sorted(f for f in after if f in before and after[f] != before[f])}
+    k = 0
+    for tool, src in srcs:
+        res = []
+        for act in (XACTS if tool == "xcmp" else AACTS):
+            res.append(one(tool, src, act, k)); k += 1
+        binr = one(tool, src, None, k); k += 1
+        recs.append({"id": len(recs), "tool": tool, "src": src, "res": res, "bin": binr})
+    can = json.loads(json.dumps(next(r for r in recs if r["bin"]["status"] == 0))); can["id"] = -1; can["res"][1]["created"] = ["a.out"]
+    rf = os.path.join(d, "acts.ndjson"); vlib.write_ndjson(rf, recs + [can])
+    verd = vlib.tlc_fold("ToolRunV", "ActRunV.cfg", [rf])[0][0]
+    if verd[-1]["ok"]:
+        raise vlib.MachineryError("actions canary accepted: binding is not live")
+    ok = 0
+    for r, v in zip(recs, verd[:-1]):
+        if v["ok"]:
+            ok += 1
+        else:
+            acts = XACTS if r["tool"] == "xcmp" else AACTS
+            what = "; ".join("%s: status %d%s%s%s" % (a, x["status"], ", diagnostic" if x["stderr"] else "", ", output" if x["stdout"] else "", ", files %s" % (x["created"] + x["modified"]) if x["created"] or x["modified"] else "")
+                             for a, x in zip(acts + ["(binary)"], r["res"] + [r["bin"]]))
+            chk.violation("actions:%s:%s" % (r["tool"], hashlib.sha256(r["src"].encode()).hexdigest()[:8]), "display options of %s on %r: %s" % (r["tool"], r["src"][:80], what), {"record.json": json.dumps(r)})
+    chk.set("display_action_sources", len(recs)); chk.set("display_action_invocations", k); chk.set("display_action_sources_conforming", ok)
+    return ok, k
+
+
 def run(tier, replay=None):
     chk = vlib.Check(PID, tier, "model_checking")
     d = vlib.rundir("c14")
@@ -160,6 +211,7 @@ def run(tier, replay=None):
                 chk.violation("%s:%s%d:%s:%s" % (inv["tool"], inv["src"], r["rep"], inv["opt"], inv["pre"]) + (":xv%d%s" % (inv["xv"], inv.get("via", "")) if inv["tool"] in ("xrun", "hexsim") else ""),
                               "`%s %s` (%s source, target %s): observed %s, which ToolRun does not allow" % (inv["tool"], r["argv"], inv["src"], inv["pre"], json.dumps(r["obs"])),
                               {"record.json": json.dumps(r)})
+        aok, ninv = actions_family(chk, tdir, d)
         chk.set("invocation_shapes", len(shapes)); chk.set("shapes_conforming", ok); chk.set("exhaustive", True)
         chk.set("runs_replayed", len(recs))
         chk.set("traces_validated_against_impl", ok); chk.set("evaluations", len(recs)); chk.set("distinct_nontrivial", ok)
